@@ -1,7 +1,18 @@
 #include <algorithm>
 #include <nano/core/random.h>
+#ifdef NANO_VERIF
+    #include <nano/core/verif.h>
+#endif
 
 using namespace nano;
+
+#ifdef NANO_VERIF
+std::atomic<uint64_t>& nano::verif::rng_state()
+{
+    static std::atomic<uint64_t> the_state{0U};
+    return the_state;
+}
+#endif
 
 rng_t nano::make_rng(seed_t seed)
 {
@@ -9,6 +20,13 @@ rng_t nano::make_rng(seed_t seed)
     {
         return rng_t{static_cast<rng_t::result_type>(*seed)};
     }
+#ifdef NANO_VERIF
+    else if (const auto state = verif::rng_state().load(); state != 0U)
+    {
+        // reproducible default seeds: the harness sets a non-zero state, each call consumes one value
+        return rng_t{static_cast<rng_t::result_type>(verif::rng_state().fetch_add(7919U))};
+    }
+#endif
     else
     {
         auto source = std::random_device{};
